@@ -69,9 +69,9 @@ Proof. exact init_mro_equal. Qed.
 
 (* A class is linearised only if each of its bases is: a rejected base makes the class itself reported. *)
 Theorem C05_rejected_base_reported :
-  forall (h : hier) c b,
-    In b (getbases h c) -> fst (init_mro h c) = KOk -> fst (compute_mro h c) = KOk ->
-    exists m, mro (mro_fuel h) h b = MOk m.
+  forall (h : hier) (rank : N -> nat) c b,
+    acyclic h rank -> In b (getbases h c) -> fst (init_mro h c) = KOk ->
+    exists m, init_mro h b = (KOk, m).
 Proof. exact rejected_base_reported. Qed.
 
 (* Independent sanity: a linearisation r of c starts with c, names no class twice, consists of exactly the
